@@ -201,6 +201,15 @@ CHECKS["C14"] = dict(
     level_text="Bounded symbolic execution of the client's connection machinery under the engine's scheduler with the fault position/kind symbolic; a blocked call shows up as a failed assertion or as a deadlock, replayed natively under a watchdog.",
     level_note="Trusted: go/ssa, gosym scheduler (context bound per run), z3.")
 
+CHECKS["C11"] = dict(
+    runs=[dict(pkg="server", harness="VfC11_lockset", reach=["end"], lockset=True, validate=0,
+               bounds="roles: two sessions (connect, negotiate, announce a symbolic id, operate with a symbolic operation, disconnect), a Get(ALL) reader, a Flush caller (no id / override / symbolic id), all from one shared server state with two instances; every path of every handler; accesses to objects of the shared state are logged with the held lock set")],
+    assumptions=["PARTIAL: decided here is the lock discipline (Eraser condition) over all handler paths, which implies data-race freedom of the shared server/RIB state for the considered roles, plus absence of panics on those paths; liveness under the real scheduler, atomicity of check-then-act sequences that release the lock in between, and quiescent-state equivalence of overlapping sessions are OUTSIDE (DESIGN.md C11)",
+                 "a lock-discipline finding is reported as a violation only when `go test -race` on TestVfRaceStress (4 sessions, 2 readers, 2 flushers, real goroutines) reports a data race whose stacks contain the two functions; otherwise it is listed as unconfirmed and the check is inconclusive",
+                 "objects created by a handler itself (not part of the shared state before the roles start) are not tracked"],
+    level_text="Lock-set analysis on top of bounded symbolic execution: the schedule quantifier is discharged by checking, over all symbolic paths of each handler, that conflicting accesses of different roles share a mutex; confirmation by the Go race detector.",
+    level_note="Trusted: go/ssa, gosym (access log, mutex model), z3, the Go race detector for confirmation.")
+
 NOT_APPLICABLE = {
     "C19": "whole compliance-suite runs over in-memory gRPC against wrapped servers in every order: a whole-program execution through gRPC, testing and reflection; no bounded symbolic encoding within reach (DESIGN.md §8)",
 }
